@@ -112,12 +112,16 @@ def vm_stack_api(ck):
         for f in changes:
             c = copy.deepcopy(e); f(c); cs.append(c)
         cans.append((copy.deepcopy(e), cs))
-    group("stack", lambda e: e["k"] == "VmStack" and len(e["puts"]) == 3 and e["enc"] == "ok" and e["mtl"]["res"] == "ok" and e["rt"]["res"] == "ok"
-          and e["sdectl"]["res"] == "ok" and len(set(e["list"])) == 3,
+    def depth_less(c):
+        i = c["tree"].index("{") + 1
+        c["tree"] = c["tree"][:i] + format(int(c["tree"][i:i + 24], 2) - 1, "024b") + c["tree"][i + 24:]
+    group("stack", lambda e: e["k"] == "VmStack" and len(e["puts"]) >= 2 and e["enc"] == "ok" and e["mtl"]["res"] == "ok" and e["rt"]["res"] == "ok"
+          and e["sdectl"]["res"] == "ok" and e["list"] != e["list"][::-1] and e["rt"]["list"] != e["rt"]["list"][::-1]
+          and e["sdectl"]["list"] != e["sdectl"]["list"][::-1] and e["tree"][e["tree"].index("{") + 1:][:24] == format(len(e["puts"]), "024b"),
           [lambda c: c.update(list=c["list"][::-1]),                                        # Put appended instead of pushing
            lambda c: c["rt"].update(list=c["rt"]["list"][::-1]),                            # the decoder listing top-first
            lambda c: c["sdectl"].update(list=c["sdectl"]["list"][::-1]),
-           lambda c: c.update(tree=c["tree"].replace("{000000000000000000000011", "{000000000000000000000010", 1)),    # depth field
+           depth_less,                                                                        # depth field
            lambda c: c["mtl"].update(hex=c["mtl"]["hex"][:-8] + "00000000" + c["mtl"]["hex"][-8:])])                   # TL padding
     group("int64", lambda e: e["k"] == "VmValue" and e["v"].get("t") == "int" and e["v"].get("v") == i64max and e["mode"] == "decode" and e["i64"]["res"] == "ok",
           [lambda c: c["i64"].update(v=str(2 ** 63 - 2)),                                   # off by one at the int64 bound
@@ -171,6 +175,7 @@ def vm_stack_api(ck):
                   "VM stack API: the answer of %s for case %s is not what spec/VmStackApi.tla requires: %s" % (
                       api, json.dumps({k: e[k] for k in ("puts", "v", "dest", "s") if k in e})[:400], json.dumps(got)[:600]),
                   {"kind": "vmstack", "api": api, "event": cellcommon.slim(e, 8000)})
+    vlib.log("vmstack canaries: groups missing %s; not rejected %s" % (missing, sorted(set(range(1, len(canaries) + 1)) - can_rej)))
     ck.canary("S->C vmstack: reversed Put order / reversed decoded order (cell, TL) / wrong depth / broken TL padding / int64 off by one / panic of Uint64 on an "
               "integer / uint64 wrapped / wrong IsNull / wrong IsInt / slice window one bit wider / struct fields in the opposite order / tuple cut to a shorter "
               "struct / panic of VmStkTuple.Unmarshal / last list element lost / int8 off range / silent wrap past the int8 bound / structure read back changed / "
